@@ -401,7 +401,9 @@ struct Gen {
     }
     if (Flip(F_RSP, 1, 5)) {
       s.rsp = true;
-      s.rsp_path = s.outs[0] + ".rsp";
+      // ($rspfile is expanded verbatim into the command: keeping its name free of
+      // shell syntax is the manifest author's business, so it gets a plain name)
+      s.rsp_path = dir + "r" + std::to_string(i) + ".rsp";
       s.rsp_kind = (int)C(3);
       if (s.rsp_kind == 2) s.rsp_literal = "lit" + std::to_string(C(100)) + " -x y";
     }
